@@ -80,6 +80,12 @@ func (rn *runner) runCase(c *Case) {
 		rn.runRouterCase(c)
 	case "head":
 		rn.runHeadCase(c)
+	case "group":
+		rn.runGroupCase(c)
+	case "match":
+		rn.runMatchCase(c)
+	case "params":
+		rn.runParamsCase(c)
 	default:
 		fmt.Fprintln(os.Stderr, "unknown family", c.Fam)
 		os.Exit(2)
